@@ -225,7 +225,7 @@ def history_batch(args):
             keys = [{"kid": "abc"[i], "mat": i + 1} for i in range(cand)]
             ok = True
             for st in h:
-                if st["op"] == "lookup":
+                if st["op"] in ("lookup", "pick"):
                     if st["set"] != keys: ok = False; break
                 elif st["op"] == "remove":
                     if st["i"] > len(keys): ok = False; break
@@ -251,6 +251,27 @@ def history_batch(args):
                     ks.keys[st["i"] - 1] = J.fresh_jkey({**mat(st["mat"]), "kid": old.kid})
                 elif st["op"] == "append":
                     ks.keys.append(J.fresh_jkey({**mat(st["mat"]), "kid": st["kid"]}))
+                elif st["op"] == "pick":
+                    # producing without a kid: whichever key is picked, it is one the set holds now (named by its kid, signed by its material)
+                    now = {k["kid"]: k["mat"] for k in st["set"]}
+                    bad = None
+                    for rep in range(8):
+                        if rep % 2:
+                            t3 = jws.serialize_compact({"alg": "ES256"}, b"r", ks, algorithms=["ES256"])
+                            hd = json.loads(R.b64d(t3.split(".")[0]))
+                        else:
+                            j3 = jws.serialize_json({"protected": {"alg": "ES256"}}, b"r", ks, algorithms=["ES256"])
+                            hd = {**json.loads(R.b64d(j3["protected"])), **j3.get("header", {})}
+                            t3 = j3["protected"] + "." + j3["payload"] + "." + j3["signature"]
+                        kid3 = hd.get("kid")
+                        if kid3 not in now:
+                            bad = f"a token produced without kid names kid {kid3!r}, the set now holds {sorted(now)}"; break
+                        try:
+                            R.jws_verify_compact(t3, pubs(now[kid3]))
+                        except Exception:  # noqa
+                            bad = f"a token produced without kid (named {kid3}) is not signed by the key the set now holds under that kid"; break
+                    if bad:
+                        out.append((hi, f"step {si + 1}: {bad}")); break
                 else:
                     kid, want = st["kid"], st["want"]
                     try:
@@ -346,8 +367,12 @@ def run(ctx: Ctx) -> None:
     hs = list({json.dumps(h, sort_keys=True): h for h in rh.cases}.values())
     if len(hs) < 5000:
         raise MachineryError("KeySetHistory export too small")
+    ctx.sensitivity("KeySetHistory", "KeySetHistory_dev_MemoisedPick")
     if not thorough:
-        hs = rnd.sample(hs, 2500)
+        twice = [h for h in hs if sum(st["op"] == "pick" for st in h) >= 2]      # pick ... mutation ... pick: kept whole
+        rest = [h for h in hs if sum(st["op"] == "pick" for st in h) < 2]
+        hs = twice + rnd.sample(rest, 2500)
+    ctx.notes["keyset_histories_with_two_picks"] = sum(1 for h in hs if sum(st["op"] == "pick" for st in h) >= 2)
     hres = pmap(history_batch, [(hs[i::16], ctx.seed) for i in range(16)], chunksize=1)
     for k, (bad, n) in enumerate(hres):
         ctx.evaluations += n
